@@ -3,13 +3,37 @@
 use std::io::{BufRead, Write};
 use std::panic::{catch_unwind, AssertUnwindSafe};
 
+mod bf;
+mod build;
 mod ck;
+mod dec;
+mod enc;
+mod ext;
+mod frag;
+mod io;
+mod opt;
+mod set;
+mod view;
 mod util;
 
 fn dispatch(op: &str, args: &[&str]) -> String {
-    let fam = op.split('.').next().unwrap_or("");
+    let mut it = op.split('.');
+    let mut fam = it.next().unwrap_or("");
+    if fam == "impl" {
+        fam = it.next().unwrap_or("");
+    }
     let r = match fam {
+        "bf" => bf::run(op, args),
+        "build" => build::run(op, args),
         "ck" => ck::run(op, args),
+        "dec" => dec::run(op, args),
+        "enc" => enc::run(op, args),
+        "ext" => ext::run(op, args),
+        "frag" => frag::run(op, args),
+        "io" => io::run(op, args),
+        "opt" => opt::run(op, args),
+        "set" => set::run(op, args),
+        "view" => view::run(op, args),
         _ => None,
     };
     r.unwrap_or_else(|| "bad-op".to_string())
